@@ -17,7 +17,9 @@
               K goroutines each loop { commit the next offset of one of their jobs; save } on ONE offsetDB while a
               checker keeps loading the file; done_j = commits of job j finished when the checker sampled them
               AFTER its read; the last element is read after everything has stopped
-   which 5  table sequence    case = (table ...)              obs = ((#filebytes loadres) ...)   one offsetDB instance *)
+   which 5  table sequence    case = (table ...)              obs = ((#filebytes loadres) ...)   one offsetDB instance
+   which 6  load after crash  case = (target old new cp override names)   obs = (oldb #newb dir1 dir2 load)   see c07_crashload
+   which 7  loaders' go/ast   case = (#file #recv #load #save)   obs = ((#dest ...) ((#fn #path) ...))   see c07_loadast *)
 From Verif Require Import Base.Sx Base.GoSem Model.OffsetsFmt Model.FsCrash Model.OffsetsSnap Gen.SaveProtocol.
 
 (* ---- decoding ------------------------------------------------------------------------------------ *)
@@ -364,9 +366,161 @@ Definition c07_sequence (case obs : sx) : verdict :=
   | _, _ => BadCase
   end.
 
+(* ---- which 6: what a restart LOADS after a save crashed ------------------------------------------------
+   case = (target old new cp override names)
+            target 0 offsetDB (save / load of plugin/input/file), 1 offset.Offset with a raw callback (the snapshot is
+            the byte string itself, Load reports the bytes it was handed), 2 offset.SaveYAML / LoadYAML of a map
+            old = () no offsets file yet (the crash hits the very FIRST save) | (x);   new = x
+            x = table (target 0) | #bytes (target 1) | ((#key value) ...) (target 2)
+            cp = (0) before the first call | (1 cut) write interrupted after cut bytes | (2) before the rename | (3) done
+            override = () | (0) leftover temp files removed | (1 #bytes) every leftover temp file (and every name
+            cur+suffix of [names]) holds these bytes afterwards: torn at another length, garbage, a complete foreign snapshot
+   obs  = (oldb #newb dir1 dir2 load)
+            oldb = () | (#bytes of the offsets file after the real save of old);  newb = the complete new snapshot
+            dir = (cur (#other-file ...)), cur = () | (#bytes): the directory after the crash / after the override
+            load = loadres (target 0) | (0) callback not invoked, (1 #bytes) handed these bytes, (2) error, (3) panic
+                   (target 1) | (0 ((#key value) ...)), (1) error, (2) panic (target 2)
+   Model: the state of Model/FsCrash.v at the crash point of the GENERATED protocol, the directory a kill leaves
+   there ([kill_dir]), and [load_dir], which reads only the committed file.  Predicate (the property): the loaded
+   state is the one committed before the save (empty when there was none) or the complete new one. *)
+Definition as_optx (s : sx) : option (option sx) :=
+  match s with SL [] => Some None | SL [x] => Some (Some x) | _ => None end.
+Definition as_optb (s : sx) : option (option bytes) :=
+  match s with SL [] => Some None | SL [SB b] => Some (Some b) | _ => None end.
+Definition optb_eqb (a b : option bytes) : bool :=
+  match a, b with None, None => true | Some x, Some y => bytes_eqb x y | _, _ => false end.
+Definition sx_of_optb (o : option bytes) : sx := match o with None => SL [] | Some b => SL [SB b] end.
+
+Definition as_cp (s : sx) : option crashpt :=
+  match s with
+  | SL [SZ 0] => Some CBefore
+  | SL [SZ 1; SZ c] => if Z.leb 0 c then Some (CWrite (Z.to_nat c)) else None
+  | SL [SZ 2] => Some CBeforeRename
+  | SL [SZ 3] => Some CDone
+  | _ => None
+  end.
+
+Definition as_odir (s : sx) : option (option bytes * list bytes) :=
+  match s with
+  | SL [c; others] =>
+      match as_optb c, as_list as_B others with
+      | Some c', Some o' => Some (c', o')
+      | _, _ => None
+      end
+  | _ => None
+  end.
+
+(* the bytes are the serialisation of the table (in the order the file lists the jobs) *)
+Definition printed_ok (b : bytes) (js : list job) : bool :=
+  match parse b with
+  | Ok es => bytes_eqb (print_jobs (reorder js (map esid es))) b
+  | _ => false
+  end.
+
+Definition kv := list (bytes * Z).
+Definition sx_of_kv (k : kv) : sx := SL (map (fun x => SL [SB (fst x); SZ (snd x)]) k).
+
+Definition c07_crashload (case obs : sx) : verdict :=
+  match case, obs with
+  | SL [SZ target; oldx; newx; cpx; _; _], SL [oldbx; SB newb; dir1x; dir2x; lr] =>
+      match as_optx oldx, as_cp cpx, as_optb oldbx, as_odir dir1x, as_odir dir2x with
+      | Some oldv, Some cp, Some oldb, Some (cur1, tmps1), Some (cur2, tmps2) =>
+          let p := if Z.eqb target 0 then filed_save_protocol else generic_save_protocol in
+          let s := crash_state p newb cp in
+          let kd := kill_dir oldb s in
+          (* the directory the real code left = the directory of the model's crash state; the override does not touch cur *)
+          let dir_ok :=
+            optb_eqb cur1 (dcur kd) && optb_eqb cur2 (dcur kd) &&
+            match dtmp kd, tmps1 with
+            | None, [] => true
+            | Some b, [t] => bytes_eqb b t
+            | _, _ => false
+            end &&
+            match oldv, oldb with None, None => true | Some _, Some _ => true | _, _ => false end in
+          (* what the restart finds: cur as the model says, under the temp name whatever the harness left there *)
+          let d := {| dcur := dcur kd; dtmp := match tmps2 with [] => None | t :: _ => Some t end |} in
+          let model_dir := SL [sx_of_optb (dcur kd); sx_of_optb (dtmp kd)] in
+          match target with
+          | 0 =>
+              match match oldv with None => Some None | Some t => option_map Some (as_list as_job t) end,
+                    as_list as_job newx with
+              | Some oldj, Some newj =>
+                  let o := as_load lr in
+                  let ml := load_dir parse (Ok []) d in
+                  let pred := load_match (Ok (match oldj with None => [] | Some j => expected_load j end)) o
+                              || load_match (Ok (expected_load newj)) o in
+                  let tie := printed_ok newb newj &&
+                             match oldj, oldb with Some j, Some b => printed_ok b j | None, None => true | _, _ => false end in
+                  judge pred (dir_ok && tie && load_match ml o) (SL [model_dir; sx_of_load ml])
+              | _, _ => BadCase
+              end
+          | 1 =>
+              match match oldv with None => Some None | Some (SB b) => Some (Some b) | _ => None end, newx with
+              | Some oldc, SB newc =>
+                  let ml := load_dir (@Some bytes) None d in
+                  let got := match lr with
+                             | SL [SZ 0] => Some None
+                             | SL [SZ 1; SB b] => Some (Some b)
+                             | _ => None
+                             end in
+                  let pred := match got with
+                              | Some x => optb_eqb x oldc || optb_eqb x (Some newc)
+                              | None => false
+                              end in
+                  let tie := bytes_eqb newc newb && optb_eqb oldc oldb in
+                  judge pred (dir_ok && tie && match got with Some x => optb_eqb x ml | None => false end)
+                        (SL [model_dir; match ml with None => SL [SZ 0] | Some b => SL [SZ 1; SB b] end])
+              | _, _ => BadCase
+              end
+          | 2 =>
+              match match oldv with None => Some [] | Some t => as_list as_stream t end, as_list as_stream newx with
+              | Some oldk, Some newk =>
+                  let decode (b : bytes) : option kv :=
+                    if bytes_eqb b newb then Some newk else if optb_eqb (Some b) oldb then Some oldk else None in
+                  let ml := load_dir decode (Some []) d in
+                  let got := match lr with SL [SZ 0; kvs] => as_list as_stream kvs | _ => None end in
+                  let pred := match got with
+                              | Some k => streams_match oldk k || streams_match newk k
+                              | None => false
+                              end in
+                  judge pred (dir_ok && match got, ml with Some k, Some m => streams_match m k | _, _ => false end)
+                        (SL [model_dir; match ml with Some m => SL [SZ 0; sx_of_kv m] | None => SL [SZ (-1)] end])
+              | _, _ => BadCase
+              end
+          | _ => BadCase
+          end
+      | _, _, _, _, _ => BadCase
+      end
+  | _, _ => BadCase
+  end.
+
+(* ---- which 7: go/ast reading of the loaders ---------------------------------------------------------------
+   case = (#file #recv #load #save)   obs = ((#dest ...) ((#fn #path) ...))
+   dest = the destination of every os.Rename the saver reaches (the committed file), (fn, path) = every call of
+   package os / filepath / ioutil the loader reaches, with its first argument.  The loader of [load_dir] reads
+   ONLY the committed file: every path it touches is a rename destination of its saver (never a temp path). *)
+Definition as_touch (s : sx) : option (bytes * bytes) :=
+  match s with SL [SB f; SB p] => Some (f, p) | _ => None end.
+
+Definition loader_reads_only_committed (dests : list bytes) (touched : list (bytes * bytes)) : bool :=
+  negb (Nat.eqb (length dests) 0) && negb (Nat.eqb (length touched) 0) &&
+  forallb (fun t => existsb (bytes_eqb (snd t)) dests) touched.
+
+Definition c07_loadast (case obs : sx) : verdict :=
+  match case, obs with
+  | SL [SB _; SB _; SB _; SB _], SL [dests; touched] =>
+      match as_list as_B dests, as_list as_touch touched with
+      | Some ds, Some ts => judge (loader_reads_only_committed ds ts) true (SL (map SB ds))
+      | _, _ => BadCase
+      end
+  | _, _ => BadCase
+  end.
+
 Definition c07_entry (which : Z) (case obs : sx) : verdict :=
   match which with
   | 5 => c07_sequence case obs
+  | 6 => c07_crashload case obs
+  | 7 => c07_loadast case obs
   | 0 => c07_roundtrip case obs
   | 1 => c07_parse case obs
   | 2 => c07_fault case obs
